@@ -45,7 +45,10 @@ CFG = {
             "strings, trailing/truncated bytes) which the validator must reject; stream api: hand-written typed-API constructions "
             "(label, sub-seed), incl. the bounds sub-stream: every bounded leaf (url/dns 128, metadata text/bytes 64, asset name 32, ipv4/6, "
             "uint .size 2/4/8, port, int64) through every validating constructor at bound-1/bound/bound+1 in BYTES with ASCII and 2/3/4-byte "
-            "code points and at the integer boundaries (a refusing constructor gives `rejected`, whatever is accepted is judged); stream tx: TransactionBuilder scenarios; judge = extracted cddl_ok_bytes on the implementation's bytes; "
+            "code points and at the integer boundaries (a refusing constructor gives `rejected`, whatever is accepted is judged), and the "
+            "provenance sub-stream: collections decoded from every wire spelling the decoder accepts (tagged/untagged, definite/indefinite, "
+            "wide heads, legacy/map outputs, array/map redeemers, the three aux-data forms) moved through typed constructors into every "
+            "other container that takes the type; stream tx: TransactionBuilder scenarios; judge = extracted cddl_ok_bytes on the implementation's bytes; "
             "non-trivial = distinct judged case with >= 8 emitted bytes",
     "trusted_base": [
         "Cddl/ConwayCddl.v: transcription of the Conway-era CDDL (transaction, body keys 0..22, outputs, value/mint, certificates 0..18, "
